@@ -16,8 +16,10 @@ import (
 
 // ---------------------------------------------------------------- (a) identifier streams
 
+var errInitFails = errors.New("init fails")
+
 var recIDs = kit.NewRecorder("C06", "identifiers",
-	"2-6 goroutines draw references from one node in generated burst patterns (Node.MakeRef interleaved with CreateAlias in processes, RegisterEvent tokens and spawned pids), total stream length generated around and beyond 2^18 (the counter width a truncated reference would wrap at); "+
+	"2-6 goroutines draw references from one node in generated burst patterns (Node.MakeRef interleaved with CreateAlias in processes, RegisterEvent tokens and pids spawned from two goroutines, a generated fraction of the spawns failing in Init), total stream length generated around and beyond 2^18 (the counter width a truncated reference would wrap at); "+
 		"oracle: no reference/alias/event-token value repeats (one hash set across all kinds, they share the generator), no pid repeats; "+
 		"non-trivial = total number of references drawn > 2^18; distinct by burst pattern")
 
@@ -43,6 +45,7 @@ func propIdentifiers(t *rapid.T) {
 	naliases := rapid.IntRange(50, 400).Draw(t, "aliases")
 	nevents := rapid.IntRange(50, 400).Draw(t, "events")
 	nspawn := rapid.IntRange(100, 1500).Draw(t, "spawns")
+	failEvery := rapid.SampledFrom([]int{0, 3, 7}).Draw(t, "every_nth_init_fails")
 
 	node, err := kit.StartLocalNode()
 	if err != nil {
@@ -115,25 +118,54 @@ func propIdentifiers(t *rapid.T) {
 			}
 		}
 	}()
+	// process ids: two goroutines spawn concurrently; some of the processes fail in their Init (a
+	// generated fraction, some of them slowly, so that other spawns happen meanwhile). Every id a
+	// process was given - as seen by its own Init, whether it succeeds or not - is unique.
 	pids := map[gen.PID]bool{}
 	var pidDup string
-	wg.Add(1)
-	go func() {
-		defer wg.Done()
-		for i := 0; i < nspawn; i++ {
-			p, err := node.Spawn(kit.Factory(&kit.ActorConfig{Label: "s", Probe: probe, Quiet: true}), gen.ProcessOptions{})
-			if err != nil {
-				continue
-			}
-			if pids[p] {
-				pidDup = fmt.Sprintf("pid %v was handed out twice", p)
-			}
-			pids[p] = true
-			if i%3 == 0 {
-				node.Kill(p)
-			}
+	var pmu sync.Mutex
+	seenInit := func(p gen.PID) {
+		pmu.Lock()
+		if pids[p] && pidDup == "" {
+			pidDup = fmt.Sprintf("pid %v was handed out twice", p)
 		}
-	}()
+		pids[p] = true
+		pmu.Unlock()
+	}
+	okCfg := &kit.ActorConfig{Label: "s", Probe: probe, Quiet: true, OnInit: func(a *kit.Actor, args ...any) error {
+		seenInit(a.PID())
+		return nil
+	}}
+	failCfg := &kit.ActorConfig{Label: "f", Probe: probe, Quiet: true, OnInit: func(a *kit.Actor, args ...any) error {
+		seenInit(a.PID())
+		if len(args) > 0 {
+			time.Sleep(30 * time.Microsecond)
+		}
+		return errInitFails
+	}}
+	for g := 0; g < 2; g++ {
+		wg.Add(1)
+		go func(g int) {
+			defer wg.Done()
+			for i := 0; i < nspawn/2; i++ {
+				if failEvery > 0 && (i+g)%failEvery == 0 {
+					if i%2 == 0 {
+						node.Spawn(kit.Factory(failCfg), gen.ProcessOptions{}, "slow")
+					} else {
+						node.Spawn(kit.Factory(failCfg), gen.ProcessOptions{})
+					}
+					continue
+				}
+				p, err := node.Spawn(kit.Factory(okCfg), gen.ProcessOptions{})
+				if err != nil {
+					continue
+				}
+				if i%3 == 0 {
+					node.Kill(p)
+				}
+			}
+		}(g)
+	}
 	wg.Wait()
 	if dup != "" {
 		t.Fatalf("identifier repeated within one node lifetime: %s", dup)
